@@ -836,3 +836,96 @@ def self_test():  # noqa: F811
     t = ast.parse(POSITIVE_EXAMPLES['defaultdict_overwrites']).body[0]
     ok['defaultdict_overwrites'] = bool(defaultdict_overwrites(t)[0])
     return ok
+
+
+PURE_UPDATES = {'reassign', 'subs', 'replace', 'remove_symbol_definitions', 'xreplace', 'update_source', 'set_initial_estimates',
+                'unjoin', 'join'}
+
+
+def dead_pure_updates(fnode):
+    """[(def node, var, how)]: `v = v.reassign(...)` / `v = v.subs(...)` (a new value of an immutable object bound to the same
+    local) after which some path leaves the function, or re-binds v, without ever reading v: the update is lost on that path"""
+    from .cfg import CFG
+    from .report import AnalysisError
+    try:
+        cfg = CFG(fnode)
+    except AnalysisError:
+        return []
+    out = []
+
+    def reads(n, v):
+        a = n.ast
+        if a is None or isinstance(a, (ast.FunctionDef, ast.AsyncFunctionDef, ast.ClassDef)):
+            return False
+        root = a.iter if n.kind == 'for' else a
+        for x in ast.walk(root):
+            if isinstance(x, ast.Name) and x.id == v and isinstance(x.ctx, ast.Load):
+                return True
+        return False
+
+    def writes_only(n, v):
+        a = n.ast
+        if n.kind == 'stmt' and isinstance(a, ast.Assign) and any(isinstance(t, ast.Name) and t.id == v for t in a.targets):
+            return not reads(n, v)
+        return False
+    for d in cfg.nodes.values():
+        a = d.ast
+        if not (d.kind == 'stmt' and isinstance(a, ast.Assign) and len(a.targets) == 1 and isinstance(a.targets[0], ast.Name)
+                and isinstance(a.value, ast.Call) and isinstance(a.value.func, ast.Attribute)
+                and a.value.func.attr in PURE_UPDATES and isinstance(a.value.func.value, ast.Name)
+                and a.value.func.value.id == a.targets[0].id):
+            continue
+        v = a.targets[0].id
+        # precise enough to arm: updates of the statement list / model under their usual names, or methods that only
+        # exist on them; `expr = expr.subs(..)` in search loops is read by the loop test or not at all (harmless)
+        if a.value.func.attr not in ('reassign', 'remove_symbol_definitions') and not (
+                'statement' in v or v in ('sset', 'model', 'stats')):
+            continue
+        # nested functions that read v keep it alive (closures)
+        if any(isinstance(x, (ast.FunctionDef, ast.Lambda)) and any(
+                isinstance(y, ast.Name) and y.id == v for y in ast.walk(x)) for x in ast.walk(fnode) if x is not fnode):
+            continue
+        seen, stack = set(), [m for m in cfg.g.successors(d.id) if not (cfg.g[d.id][m]['labels'] <= {'exc'})]
+        while stack:
+            n = stack.pop()
+            if n in seen:
+                continue
+            seen.add(n)
+            node = cfg.nodes[n]
+            if n == cfg.exit:
+                out.append((d, v, 'the function returns'))
+                break
+            if n == cfg.raise_exit:
+                continue
+            if reads(node, v):
+                continue
+            if writes_only(node, v):
+                out.append((d, v, f'`{node.text()[:50]}` re-binds it'))
+                break
+            if node.kind == 'return':
+                out.append((d, v, f'`{node.text()[:40]}`'))
+                break
+            for m in cfg.g.successors(n):
+                if cfg.g[n][m]['labels'] <= {'exc', 'fexc'}:
+                    continue
+                stack.append(m)
+    return out
+
+
+POSITIVE_EXAMPLES['dead_pure_updates'] = """
+def f(model, statements):
+    changed = False
+    for x in model:
+        statements = statements.reassign(x, 1)
+    if not changed:
+        return model
+    return model.replace(statements=statements)
+"""
+_self_test_base_dpu = self_test
+
+
+def self_test():  # noqa: F811
+    ok = _self_test_base_dpu()
+    t = ast.parse(POSITIVE_EXAMPLES['dead_pure_updates']).body[0]
+    ok['dead_pure_updates'] = bool(dead_pure_updates(t))
+    return ok
